@@ -169,7 +169,13 @@ def jAxis (j : Json) : M Data.Axis := do
   | none => pure .none
   | some v => match v.getStr? with
     | .ok s => pure (.name s)
-    | .error _ => do pure (.pos (← jInt v))
+    | .error _ => match v.getArr? with
+      | .ok arr => do
+        let items ← arr.toList.mapM (fun (x : Json) => match x.getStr? with
+          | .ok s => (pure (Data.AxItem.nm s) : M Data.AxItem)
+          | .error _ => do pure (Data.AxItem.ix (← jInt x)))
+        pure (.tuple items)
+      | .error _ => do pure (.pos (← jInt v))
 
 def gtα (a b : GRat) : Bool := GRat.lt b a
 
@@ -510,11 +516,15 @@ def layoutJ (j : Json) : M Json := do
   match ← jStr (← jField j "q") with
   | "decode" =>
     let bs ← jNatList (← jField j "bytes")
-    match Dnp.Layout.decode L bs with
+    let declared ← match jFieldOpt j "declared" with
+      | some v => do pure (some (← jNat v))
+      | none => pure none
+    match Dnp.Layout.decodeDeclared L declared bs with
     | .ok a => pure (Json.mkObj [("outcome", "ok"), ("result", "ok"), ("shape", natsJ a.shape),
         ("points", Json.arr (a.data.map natsJ).toArray)])
     | .error .short => pure (Json.mkObj [("outcome", "ok"), ("result", "short")])
     | .error .long => pure (Json.mkObj [("outcome", "ok"), ("result", "long")])
+    | .error .inconsistent => pure (Json.mkObj [("outcome", "ok"), ("result", "inconsistent")])
   | "encode" =>
     let shape ← jNatList (← jField j "shape")
     let pts ← (← jArr (← jField j "points")).mapM jNatList
